@@ -243,3 +243,4 @@ def run(ctx):
   nt2 = shape.check_state_buffers(ctx, ix.func("ttconv.vtt.tokenizer:CueTextTokenizer"), buffers=("buffer",),
                                  continuation={("start_tag_annot", "annot_cref"): "buffer", ("annot_cref", "start_tag_annot"): "buffer"})
   ctx.floor("TYPESTATE-buffer", "state transitions sharing an accumulator", nt2, 2)
+  common.check_history_independence(ctx, ["ttconv.vtt.reader", "ttconv.vtt.tokenizer", "ttconv.utils"])
